@@ -737,3 +737,165 @@ def offset_flows(rep, prog, rule, floor=20):
                         "%s: the source index %s of %s does not depend on src_x: the column offset of "
                         "the pass is ignored for this access" % (f.name, fmt(e)[:80], what))
     rep.floor(rule, "source accesses in the vertical kernels", n, floor)
+
+
+def cursor_advance(rep, prog, rule, floor=20):
+    """the source cursor of a vertical kernel advances with the destination"""
+    from ..cfg import Dom, reachable_from, find_path
+    rep.rule(rule, "in the vertical kernels the source cursor advances in step with the destination: "
+             "a tier takes its destination chunks from chunks_exact_mut(K) of the destination row; "
+             "(a) a tier that is a loop adds K to the cursor on every way round the loop, (b) a tier "
+             "that handles one chunk (`if let Some(chunk) = chunks.next()`) adds K before the cursor "
+             "is used by anything else than the code that fills that chunk. A missing or different "
+             "increment makes every later tier -- in particular the scalar tail -- read source "
+             "columns that do not belong to the destination columns it writes")
+    n = 0
+    for f in sorted(prog.fns.values(), key=lambda x: x.id):
+        if f.kind == "closure" or not re.match(r"^convolution::vertical_\w+::", f.name):
+            continue
+        curs = [i for i, l in enumerate(f.locals) if l[1] in ("src_x", "x_src") and i > 0]
+        if not curs:
+            continue
+        sym = Sym(f)
+        dom = Dom(f)
+        l = curs[0]
+        cur = ("local", l, f.local_name(l))
+        cur_p = ("param", l, f.local_name(l))
+        incs = {}
+        for (bb, j, rv, w) in f.defs().get(l, []):
+            e = sym.rvalue(rv, bb, (bb, j))
+            while e[0] in ("ovf", "cast"):
+                e = e[1] if e[0] == "ovf" else e[2]
+            if e[0] == "bin" and e[1] == "Add" and e[2] in (cur, cur_p) and e[3][0] == "const":
+                incs[bb] = e[3][1]
+            elif e[0] == "bin" and e[1] == "Add" and e[3] in (cur, cur_p) and e[2][0] == "const":
+                incs[bb] = e[2][1]
+            else:
+                incs[bb] = None
+        if not incs:
+            continue
+
+        def uses_cursor(c):
+            return any(sym.operand(a, (c.bb, "term")) in (cur, cur_p) for a in c.args)
+
+        def chunk_size(nb):
+            """K when the `next` call in block nb advances an iterator over chunks_exact_mut(.., K)"""
+            nc = f.call_in(nb)
+            it = sym.operand(nc.args[0], (nb, "term")) if nc and nc.args else None
+            seen_l = set()
+            for _ in range(6):
+                if it is None:
+                    return None
+                # the iterator itself (through into_iter / by_ref / borrows), not something made
+                # from its remainder or its elements
+                x = it
+                while isinstance(x, tuple) and x:
+                    if x[0] in ("ref", "deref", "reborrow"):
+                        x = x[1]
+                    elif x[0] == "cast":
+                        x = x[2]
+                    elif x[0] in ("call", "callat") and (x[1] if x[0] == "call" else x[2]) in ("into_iter", "by_ref") \
+                            and (x[2] if x[0] == "call" else x[3]):
+                        x = (x[2] if x[0] == "call" else x[3])[0]
+                    else:
+                        break
+                it = x
+                if isinstance(it, tuple) and it and it[0] in ("call", "callat"):
+                    nm_ = it[1] if it[0] == "call" else it[2]
+                    ar_ = it[2] if it[0] == "call" else it[3]
+                    if nm_ == "chunks_exact_mut" and len(ar_) == 2 and ar_[1][0] == "const":
+                        return ar_[1][1]
+                    return None
+                if not (isinstance(it, tuple) and it and it[0] == "local"):
+                    return None
+                loc = [it] if it[1] not in seen_l else []
+                if not loc:
+                    return None
+                L = loc[0]
+                seen_l.add(L[1])
+                best = None
+                for (bb, j, rv, w) in f.defs().get(L[1], []):
+                    if w and dom.dominates(bb, nb) and (best is None or dom.dominates(best[0], bb)):
+                        best = (bb, j, rv)
+                if best is None:
+                    return None
+                it = sym.rvalue(best[2], best[0], (best[0], best[1]))
+            return None
+        for c in f.calls():
+            if (c.method or short(c.name)) != "next":
+                continue
+            K = chunk_size(c.bb)
+            if K is None:
+                continue
+            # Some edge: the successor chain from which the chunk is used
+            nb = c.bb
+            start = None
+            for (p_, s_, cond, val) in sym.edge_facts():
+                if cond[0] == "discr" and val == 1 and re.search(r"next@bb%d\(" % nb, fmt(cond)):
+                    start = s_
+            if start is None:
+                continue
+            n += 1
+            rep.touch(f)
+            good = {b for b, k in incs.items() if k == K}
+            key = "%s|tier@K=%d" % (f.name, K)
+            region = reachable_from(f, start, blocked=good)
+            verdict = None
+            if nb in reachable_from(f, start):
+                # loop tier: a way round without the increment?
+                if nb in region:
+                    bad_inc = [k for b, k in incs.items() if b in region and k != K]
+                    verdict = ("a way round the loop over chunks of %d components does not add %d to the "
+                               "cursor%s" % (K, K, (" (it adds %s)" % bad_inc[0]) if bad_inc else ""))
+            else:
+                # single-chunk tier: it ends where the Some and the None edge of `next` meet again
+                none_start = None
+                for (p_, s_, cond, val) in sym.edge_facts():
+                    if cond[0] == "discr" and re.search(r"next@bb%d\(" % nb, fmt(cond)) and \
+                            (val == 0 or (isinstance(val, tuple) and val and val[0] == "not" and 1 in val[1])):
+                        none_start = s_
+                after = reachable_from(f, none_start) if none_start is not None else set()
+                leak = region & after           # reached from the tier without the increment
+                for cb in f.calls():
+                    if cb.bb in leak and uses_cursor(cb):
+                        verdict = ("after the single chunk of %d components the cursor is used by %s "
+                                   "without having advanced by %d" % (K, cb.method or short(cb.name), K))
+                        break
+            if verdict:
+                rep.bad(rule, key + "|cursor", c.at, "%s: %s" % (f.name, verdict))
+            else:
+                rep.ok(rule, key, c.at, "cursor += %d with every chunk" % K)
+    rep.floor(rule, "tiers of the vertical kernels", n, floor)
+
+
+def _find_chunks(e, depth=0):
+    """K of a chunks_exact_mut(.., K) call inside the expression"""
+    if not isinstance(e, tuple) or not e or depth > 12:
+        return None
+    if e[0] in ("call", "callat"):
+        nm = e[1] if e[0] == "call" else e[2]
+        args = e[2] if e[0] == "call" else e[3]
+        if nm == "chunks_exact_mut" and len(args) == 2 and args[1][0] == "const":
+            return args[1][1]
+    for x in e[1:]:
+        if isinstance(x, tuple):
+            r = _find_chunks(x, depth + 1) if (x and isinstance(x[0], str)) else None
+            if r is None and x and isinstance(x[0], tuple):
+                for y in x:
+                    r = _find_chunks(y, depth + 1)
+                    if r is not None:
+                        break
+            if r is not None:
+                return r
+    return None
+
+
+def _locals(e, acc=None):
+    acc = [] if acc is None else acc
+    if isinstance(e, tuple) and e:
+        if e[0] == "local":
+            acc.append(e)
+        for x in e:
+            if isinstance(x, tuple):
+                _locals(x, acc)
+    return acc
